@@ -12,13 +12,13 @@ LEVEL = "fault_enumeration"
 DECIDING = ["line_events", "error_events"]
 RULE = (
     "full product policy-subset(64) x fault kind x fault position(first scanned, middle, last, two lines) x "
-    "validation-mode override(none; no-raise,no-stop; raise; no-print,fail; match); a two-member named-paths group whose members carry different overrides (the override is for that csvpath only); thorough adds one arg-mismatch "
+    "validation-mode override(none; no-raise,no-stop; raise; no-print,fail; match; stop; no-fail,no-print); a two-member named-paths group whose members carry different overrides (the override is for that csvpath only); thorough adds one arg-mismatch "
     "program per numeric function, OR logic-mode and CsvPaths().csvpath() construction. Non-trivial: the run reaches "
     "at least one fault line; distinct = distinct (policy, kind, position, override, variant) tuples."
 )
 ASSUMPTIONS = [
     "the policy is given to the CsvPath at construction (Config passed in), as config.ini would",
-    "with validation-mode 'match' nothing is asserted about whether the faulting line matches",
+    "with validation-mode 'match' (and no raise) the faulting line must match for the kinds argtype, direct, pyexc, rule, righthand; nothing is asserted for the remaining kinds",
 ]
 
 FLAGS = ["raise", "collect", "stop", "fail", "print", "quiet"]
@@ -36,6 +36,7 @@ VMODES = {
     "no-print,fail": {"print": False, "fail": True},
     "match": {"match": True},
     "stop": {"stop": True},
+    "no-fail,no-print": {"fail": False, "print": False},
 }
 
 NUMERIC_FUNCS = {
@@ -309,7 +310,7 @@ def run_case(case, agg):
         if ln in faults:
             if eff["match"]:
                 # validation-mode match: an argument mismatch in the only/every component lets the line match
-                if kind in ("argtype", "direct") and not eff["raise"] and not ev.get("exc") and ev["ret"] is not True:
+                if kind in ("argtype", "direct", "pyexc", "rule", "righthand") and not eff["raise"] and not ev.get("exc") and ev["ret"] is not True:
                     problems.append(("match-mode", f"fault line {ln} did not match under validation-mode match", "matches"))
                 continue
             if ev.get("exc"):
